@@ -54,6 +54,7 @@ vec_at = z3.Function("vec_at", z3.IntSort(), z3.IntSort(), VAL)
 map_has = z3.Function("map_has", z3.IntSort(), z3.StringSort(), z3.BoolSort())
 map_at = z3.Function("map_at", z3.IntSort(), z3.StringSort(), VAL)
 dbg_of = z3.Function("debug_of", VAL, z3.StringSort())
+display_of = z3.Function("display_of", VAL, z3.StringSort())
 
 
 def is_tag(term, tag):
@@ -251,7 +252,7 @@ def copy_val(v):
 # ------------------------------------------------------------------------------------------------ layouts from the source
 STD_ENUMS = {
     "Option": ["None", "Some"], "Result": ["Ok", "Err"], "Poll": ["Ready", "Pending"], "ControlFlow": ["Continue", "Break"],
-    "Ordering": ["Less", "Equal", "Greater"],
+    "Ordering": ["Less", "Equal", "Greater"], "Entry": ["Vacant", "Occupied"],
 }
 
 
